@@ -25,13 +25,25 @@ META = {
 C = "wow_mpq::compression::"
 
 
-def algo_calls(node, stage_var=None):
+def algo_calls(node, stages_only=False):
+    """algorithm-module calls; with stages_only, only pipeline stages `V = algorithms::m::f(&V, ..)?` (same local in and out)"""
     out = []
+    if stages_only:
+        for a in hirq.walk(node):
+            if a.get("k") != "assign":
+                continue
+            l = hirq.strip(a["l"])
+            if l.get("k") != "path" or "local" not in l["res"]:
+                continue
+            v = l["res"]["local"]
+            for c in hirq.calls(a["r"]):
+                m = re.search(r"compression::algorithms::(\w+)::(\w+)$", c.get("fn") or "")
+                if m and c["args"] and re.search(r"\b%s\b" % re.escape(v), hirq.render(c["args"][0])):
+                    out.append((m.group(1), m.group(2), c["ln"]))
+        return out
     for c in hirq.calls(node):
         m = re.search(r"compression::algorithms::(\w+)::(\w+)$", c.get("fn") or "")
         if m:
-            if stage_var is not None and not (c["args"] and stage_var in hirq.render(c["args"][0])):
-                continue      # not a stage of the pipeline (e.g. single-method shortcut on the original input)
             out.append((m.group(1), m.group(2), c["ln"]))
     return out
 
@@ -164,8 +176,8 @@ def run(ctx):
     else:
         ctx.saw_fn(cm)
         ctx.saw_fn(dmi)
-        cc = algo_calls(cm.hir["body"], "current_data")
-        dc = algo_calls(dmi.hir["body"], "current_data")
+        cc = algo_calls(cm.hir["body"], stages_only=True)
+        dc = algo_calls(dmi.hir["body"], stages_only=True)
         c_ad = [ln for m, f, ln in cc if m == "adpcm"]
         c_ot = [ln for m, f, ln in cc if m != "adpcm"]
         d_ad = [ln for m, f, ln in dc if m == "adpcm"]
